@@ -198,6 +198,10 @@ var transparentCalls = map[string]int{
 	"(*math/big.Int).Set":      1,
 	"(*math/big.Int).SetInt64": 1,
 	"math/big.NewInt":          0,
+	// width-normalising helpers: the value is still "that integer, as bytes"
+	"github.com/xelaj/mtproto/internal/math.BigIntFixedBytes": 0,
+	"github.com/xelaj/go-dry.BigIntBytes":                     0,
+	"github.com/xelaj/mtproto/telegram/internal/srp.pad256":   0,
 }
 
 func typeOf(v any) string {
